@@ -88,8 +88,26 @@ class Loop:
                     vb = body.blocks[v]
                     if vb.term.kind == 'unreachable' and not vb.stmts:
                         continue   # the `otherwise` arm of an exhaustive enum switch
+                    if v in diverging(body):
+                        continue   # an assertion / panic arm: the loop is not left, the thread aborts (panic inventories cover it)
                     out.append((u, v))
         return out
+
+
+def diverging(body):
+    """blocks from which no `return` is reachable (panic / abort arms)"""
+    if hasattr(body, '_diverging'):
+        return body._diverging
+    can = set()
+    work = [b.idx for b in body.blocks if b.term.kind == 'return' and b.idx in body.reachable]
+    while work:
+        x = work.pop()
+        if x in can:
+            continue
+        can.add(x)
+        work.extend(p for p in body.pred[x] if p not in can)
+    body._diverging = {b for b in body.reachable if b not in can}
+    return body._diverging
 
 
 def loops(body):
